@@ -318,6 +318,8 @@ def run(ctx, rep):
     sticky_failure_rule(P, rep)
     errno_class_rule(P, rep, 'R-C08-10')
     writer_error_scan_rule(P, rep, 'R-C08-1w')
+    from .C13 import writer_error_clear_after_report_rule
+    writer_error_clear_after_report_rule(P, rep, 'R-C08-3c')
     writer_report_unconditional_rule(P, rep, 'R-C08-3r')
     from .C04 import scrub_marking_rule
     rep.rule('R-C08-4m', 'scrub marking: a stripe with an i/o (or silent) error is marked bad whatever other errors it has; refresh only when clean', 3)
